@@ -250,6 +250,10 @@ class _Rename(ast.NodeTransformer):
 
 
 # ------------------------------------------------------------------------------------------------ function-level passes
+_PURE_BUILTINS = {"len", "isinstance", "issubclass", "str", "repr", "int", "float", "bool", "tuple", "list", "set", "frozenset", "dict", "sorted", "reversed",
+                  "enumerate", "zip", "range", "min", "max", "sum", "any", "all", "type", "id", "hasattr", "getattr", "callable", "abs", "round"}
+
+
 class FunctionNormalizer:
     """Normalises statement lists; ``fall`` describes what falling off the end of a block means."""
 
@@ -308,46 +312,62 @@ class FunctionNormalizer:
 
     def _alias_ok(self, t: str, st: ast.stmt, rest: List[ast.stmt], fn) -> bool:
         v = st.value
-        chain = v
-        while isinstance(chain, ast.Attribute):
-            chain = chain.value
-        if not (isinstance(v, ast.Attribute) and isinstance(chain, ast.Name)) or chain.id == t:
+        # a pure read: names, attribute chains, constants, comparisons / arithmetic / subscripts of those (no call, no lazily
+        # evaluated operand, no display of a mutable object — `x = []` used twice is ONE list)
+        if not isinstance(v, (ast.Attribute, ast.Compare, ast.BinOp, ast.UnaryOp, ast.Subscript)) or any(
+                not isinstance(n, (ast.Name, ast.Attribute, ast.Constant, ast.Compare, ast.BinOp, ast.UnaryOp, ast.Subscript, ast.Slice, ast.Tuple, ast.Load,
+                                   ast.operator, ast.unaryop, ast.cmpop)) for n in ast.walk(v)):
             return False
-        root = chain.id
-        if self._is_param(fn, t) or self.n_stores[t] != 1 or self.n_loads[t] < 2 or self.n_stores[root] > 1:
+        names_v = {n.id for n in ast.walk(v) if isinstance(n, ast.Name)}
+        if t in names_v or not names_v:
+            return False
+        if self._is_param(fn, t) or self.n_stores[t] != 1 or self.n_loads[t] < 2:
             return False
         if sum(len(_loads(r, t)) for r in rest) != self.n_loads[t]:
             return False
         text = norm(v)
-        prefixes = set()
-        c = v
-        while isinstance(c, (ast.Attribute, ast.Name)):
-            prefixes.add(norm(c))
-            if isinstance(c, ast.Name):
-                break
-            c = c.value
+        chain_case = isinstance(v, ast.Attribute) and all(isinstance(n, (ast.Attribute, ast.Name, ast.Load)) for n in ast.walk(v))
+        prefixes, state_roots = set(names_v), set()
+        for n in ast.walk(v):
+            if isinstance(n, (ast.Attribute, ast.Subscript)):
+                c = n
+                while isinstance(c, (ast.Attribute, ast.Subscript)):
+                    if isinstance(c, ast.Attribute):
+                        prefixes.add(norm(c))
+                    c = c.value
+                if isinstance(c, ast.Name):
+                    state_roots.add(c.id)
 
         def kills(node) -> bool:
-            """Can evaluating ``node`` rebind the chain?  A store to a prefix of it, or a call that is handed the root object."""
+            """Can evaluating ``node`` change what the expression reads?  A store to one of its names / attribute prefixes or
+            into an object it reads from, or a call that is handed such an object."""
             parents = {}
             for n in ast.walk(node):
                 for ch in ast.iter_child_nodes(n):
                     parents[id(ch)] = n
             for n in ast.walk(node):
-                if isinstance(n, (ast.Name, ast.Attribute)) and isinstance(getattr(n, "ctx", None), (ast.Store, ast.Del)) and norm(n) in prefixes:
-                    return True
-                if isinstance(n, ast.Name) and n.id == root and isinstance(n.ctx, ast.Load):
+                if isinstance(n, (ast.Name, ast.Attribute, ast.Subscript)) and isinstance(getattr(n, "ctx", None), (ast.Store, ast.Del)):
+                    if isinstance(n, (ast.Name, ast.Attribute)) and norm(n) in prefixes:
+                        return True
+                    b_ = n
+                    while isinstance(b_, (ast.Attribute, ast.Subscript)):
+                        b_ = b_.value
+                    if isinstance(n, (ast.Attribute, ast.Subscript)) and isinstance(b_, ast.Name) and b_.id in state_roots and not chain_case:
+                        return True
+                if isinstance(n, ast.Name) and n.id in state_roots and isinstance(n.ctx, ast.Load):
                     # the largest attribute chain this mention is the root of
                     top = n
                     while isinstance(parents.get(id(top)), ast.Attribute) and parents[id(top)].value is top:
                         top = parents[id(top)]
                     tt = norm(top)
-                    if tt == text or tt.startswith(text + "."):
+                    if chain_case and (tt == text or tt.startswith(text + ".")):
                         continue  # the aliased object itself
                     # is the mention inside a call (receiver or argument)?
                     q = top
                     while id(q) in parents:
                         q = parents[id(q)]
+                        if isinstance(q, ast.Call) and isinstance(q.func, ast.Name) and q.func.id in _PURE_BUILTINS:
+                            continue   # len(x), isinstance(x, T), sorted(x) … read their argument and change nothing
                         if isinstance(q, (ast.Call, ast.Await, ast.Yield, ast.YieldFrom)):
                             return True
                         if isinstance(q, ast.stmt):
@@ -368,8 +388,19 @@ class FunctionNormalizer:
         def expr(node, live) -> bool:
             uses = _loads(node, t)
             k = kills(node)
-            if uses and (not live or k or any(deferred(node, u) for u in uses)):
+            if uses and (not live or any(deferred(node, u) for u in uses)):
                 ok[0] = False
+            elif uses and k:
+                # only what is evaluated BEFORE a use within the same expression can spoil it (operands left to right, arguments
+                # before the call); inside a construct that is evaluated repeatedly, anything in it can
+                for u in uses:
+                    path = _path_to(node, u) or []
+                    for parent, child in zip(path, path[1:]):
+                        if isinstance(parent, (ast.ListComp, ast.SetComp, ast.DictComp, ast.GeneratorExp, ast.Lambda, ast.BoolOp, ast.IfExp)) and kills(parent):
+                            ok[0] = False
+                        for sib in _evaluated_before(parent, child):
+                            if kills(sib):
+                                ok[0] = False
             return live and not k
 
         def walk(stmts, live) -> bool:
@@ -828,6 +859,8 @@ class FunctionNormalizer:
         if not path:
             return False
         pure_value = not any(isinstance(n, (ast.Call, ast.Await, ast.Yield, ast.YieldFrom, ast.NamedExpr)) for n in ast.walk(value))
+        # a value that reads object state (x.a, x[k]) must not move past a call either: the call may change that state
+        reads_state = any(isinstance(n, (ast.Attribute, ast.Subscript)) for n in ast.walk(value))
         for parent, child in zip(path, path[1:]):
             if isinstance(parent, (ast.Lambda, ast.FunctionDef, ast.GeneratorExp, ast.ListComp, ast.SetComp, ast.DictComp)):
                 # only the first iterable of a comprehension is evaluated once, immediately
@@ -845,7 +878,7 @@ class FunctionNormalizer:
                 if isinstance(parent, ast.IfExp) and parent.test is not child:
                     if not pure_value:
                         return False
-            if not pure_value:
+            if not pure_value or reads_state:
                 for sib in _evaluated_before(parent, child):
                     if any(isinstance(n, (ast.Call, ast.Await, ast.Yield, ast.YieldFrom)) for n in ast.walk(sib)):
                         return False
@@ -1432,7 +1465,8 @@ class Normalizer:
             uses = sum(len(_loads(s, p)) for s in hb)
             if self._trivial(v) and p not in helper_locals:
                 mapping[p] = v
-            elif uses <= 1 and p not in helper_locals and not any(isinstance(n, ast.Call) for n in ast.walk(v)):
+            elif uses <= 1 and p not in helper_locals and not any(isinstance(n, ast.Call) for n in ast.walk(v)) and not (
+                    any(isinstance(n, (ast.Attribute, ast.Subscript)) for n in ast.walk(v)) and any(isinstance(n, ast.Call) for s_ in hb for n in ast.walk(s_))):
                 mapping[p] = v
             else:
                 tmp = f"{p}__{tag}"
@@ -1508,8 +1542,9 @@ class Normalizer:
             uses = sum(len(_loads(s, p)) for s in body_nodes)
             if self._trivial(v) and (not reassigned or (isinstance(v, ast.Name) and v.id in target_names)):
                 mapping[p] = v
-            elif uses <= 1 and not reassigned and not any(isinstance(n, (ast.Call,)) for n in ast.walk(v)):
-                mapping[p] = v
+            elif uses <= 1 and not reassigned and not any(isinstance(n, (ast.Call,)) for n in ast.walk(v)) and not (
+                    any(isinstance(n, (ast.Attribute, ast.Subscript)) for n in ast.walk(v)) and any(isinstance(n, ast.Call) for s_ in body_nodes for n in ast.walk(s_))):
+                mapping[p] = v   # (an argument reading object state is not moved past calls of the helper body)
             else:
                 tmp = f"{p}__{fi.node.name.strip('_')}"
                 pre.append(_loc(ast.Assign(targets=[ast.Name(id=tmp, ctx=ast.Store())], value=v), st))
